@@ -7,7 +7,16 @@ import common  # noqa: E402
 from translate import ALL  # noqa: E402
 
 os.makedirs(common.GEN, exist_ok=True)
+failed = 0
 for g in ALL:
-    for name, text in g(common.REPO).items():
+    try:
+        out = g(common.REPO)
+    except common.TranslateError as e:
+        # fail-closed translators are reported by the check of the property they serve; the rest of the build goes on
+        print("translator %s failed (reported by its property's check): %s" % (g.__module__, e))
+        failed += 1
+        continue
+    for name, text in out.items():
         common.write_if_changed(os.path.join(common.GEN, name), text)
         print("generated", name)
+sys.exit(4 if failed else 0)
